@@ -259,3 +259,24 @@ func SanitizeLine(s string) string {
 	}
 	return s
 }
+
+// NewScratchCtx returns a single-shard context used by replay functions (evaluates every case, collects violations).
+func NewScratchCtx() *Ctx {
+	return &Ctx{ID: "replay", Tier: "quick", NShards: 1, Only: -1, Counters: map[string]int64{}, viol: map[string]*Violation{},
+		distinct: map[string]map[uint64]struct{}{}, maxSamples: 0}
+}
+
+// FirstViolation returns the message of a recorded violation ("" if none).
+func (c *Ctx) FirstViolation() string {
+	best := ""
+	for sig, v := range c.viol {
+		s := sig + ": " + v.Message
+		if best == "" || s < best {
+			best = s
+		}
+	}
+	return best
+}
+
+// ViolationCount is the number of distinct violation signatures recorded so far.
+func (c *Ctx) ViolationCount() int { return len(c.viol) }
